@@ -582,6 +582,45 @@ func multiInstanceDocs() [][2]string {
 		// accepted documents with n entries in every collection
 		add(fmt.Sprintf("n-of-everything-%d", n), dupE+dupS+dupG+decl+"GET /ok"+pseg+"\n  Tags"+strings.ReplaceAll(tags, "@nopeT", "@g")+"\n  200 any\n")
 	}
+	// lists with repetitions: every Tags list of length 2..4 over three declared tags that names some
+	// tag twice, at every level that takes a list (method, URL, JSON-RPC method); and the same for
+	// allOf lists and or lists of types
+	tg := []string{"@ga", "@gb", "@gc"}
+	var lists [][]string
+	var rec func(cur []string)
+	rec = func(cur []string) {
+		if len(cur) >= 2 {
+			seen, rep := map[string]bool{}, false
+			for _, x := range cur {
+				if seen[x] {
+					rep = true
+				}
+				seen[x] = true
+			}
+			if rep && len(seen) >= 2 {
+				lists = append(lists, append([]string{}, cur...))
+			}
+		}
+		if len(cur) == 4 {
+			return
+		}
+		for _, t := range tg {
+			rec(append(cur, t))
+		}
+	}
+	rec(nil)
+	declTags := "TAG @ga\nTAG @gb\nTAG @gc\n"
+	for i, l := range lists {
+		ls := strings.Join(l, " ")
+		add(fmt.Sprintf("repeated-tag-method-%d", i), declTags+"GET /t\n  Tags "+ls+"\n  200 any\n")
+		if len(l) <= 3 {
+			add(fmt.Sprintf("repeated-tag-url-%d", i), declTags+"URL /t\n  Tags "+ls+"\n  GET\n    200 any\n  POST\n    200 any\n")
+			add(fmt.Sprintf("repeated-tag-rpc-%d", i), declTags+"URL /t\n  Protocol json-rpc-2.0\n  Method m\n    Tags "+ls+"\n")
+			q := "\"" + strings.ReplaceAll(strings.Join(l, "\", \""), "@g", "@t") + "\""
+			add(fmt.Sprintf("repeated-allOf-%d", i), "TYPE @ta\n  {\"a\": 1}\nTYPE @tb\n  {\"b\": 1}\nTYPE @tc\n  {\"c\": 1}\nTYPE @h\n  { // {allOf: ["+q+"]}\n    \"own\": 1\n  }\n")
+			add(fmt.Sprintf("repeated-or-%d", i), "TYPE @ta\n  {\"a\": 1}\nTYPE @tb\n  {\"b\": 1}\nTYPE @tc\n  {\"c\": 1}\nTYPE @h\n  1 // {or: ["+q+"]}\n")
+		}
+	}
 	return out
 }
 
